@@ -200,6 +200,7 @@ typedef struct thread_pool_s { /* thread pool */
 
 
 static int	tpt_ev_post(int op, tp_event_p ev, tp_udata_p tp_udata);
+static int	tpt_pt_id_is_set(tpt_p tpt);
 static int	tpt_data_event_init(tpt_p tpt);
 static void	tpt_data_event_destroy(tpt_p tpt);
 static void	tpt_loop(tpt_p tpt);
@@ -1138,6 +1139,14 @@ tp_shutdown(tp_p tp) {
 	}
 }
 
+static int
+tpt_pt_id_is_set(tpt_p tpt) {
+	pthread_t pt_id_zero;
+
+	memset(&pt_id_zero, 0x00, sizeof(pthread_t));
+	return (0 != memcmp(&tpt->pt_id, &pt_id_zero, sizeof(pthread_t)));
+}
+
 int
 tp_shutdown_wait(tp_p tp) {
 	int error;
@@ -1154,11 +1163,14 @@ tp_shutdown_wait(tp_p tp) {
 
 	for (size_t i = 0; i < tp->s.threads_max; i ++) {
 		LCB_VERIF_POINT(LCB_VP_SHUTDOWN_WAIT_BEFORE_JOIN);
-		if (TP_THREAD_STATE_STOP == tp->threads[i].state)
-			continue;
+		/* Join every created thread, even if it has already marked
+		 * itself as stopped: it may still be in its epilogue. */
+		if (0 == tpt_pt_id_is_set(&tp->threads[i]))
+			continue; /* Never started or already joined. */
 		error = pthread_join(tp->threads[i].pt_id, NULL);
 		switch (error) {
 		case 0: /* No error. */
+			memset(&tp->threads[i].pt_id, 0x00, sizeof(pthread_t));
 			break;
 		case EDEADLK: /* Should not happen, checked by tp_thread_is_tp_thr(). */
 			return (error);
@@ -1240,6 +1252,7 @@ tp_threads_create(tp_p tp, const int skip_first) {
 		if (0 == pthread_create_eagain(&tpt->pt_id, NULL,
 		    tp_thread_proc, tpt)) {
 		} else {
+			memset(&tpt->pt_id, 0x00, sizeof(pthread_t));
 			tpt->state = TP_THREAD_STATE_STOP;
 		}
 	}
@@ -1263,6 +1276,7 @@ tp_thread_attach_first(tp_p tp) {
 	tpt->pt_id = pthread_self();
 
 	tp_thread_proc(tpt);
+	memset(&tpt->pt_id, 0x00, sizeof(pthread_t)); /* Not joinable. */
 
 	return (0);
 }
@@ -1337,10 +1351,11 @@ tp_thread_proc(void *data) {
 	syslog(LOG_INFO, "%s thread exited...", thr_name);
 	pthread_setspecific(tp_tls_key_tpt, NULL);
 	pthread_self_name_set(NULL);
-	memset(&tpt->pt_id, 0x00, sizeof(pthread_t));
+	tpt->tp->threads_cnt --;
+	/* pt_id is kept for tp_shutdown_wait(): it joins and resets it.
+	 * Nothing may touch tpt / tp after the state store below. */
 	tpt->state = TP_THREAD_STATE_STOP; /* Reset state on exit. */
 	LCB_VERIF_POINT(LCB_VP_THREAD_PROC_AFTER_STOP_STORE);
-	tpt->tp->threads_cnt --;
 
 	return (NULL);
 }
